@@ -2,11 +2,13 @@
 # tools/sweep.sh <seed> [tier]  - run every registered check once with the given seed (no evidence written), summary at the end
 SEED="${1:-1}"; TIER="${2:-quick}"
 cd "$(dirname "$0")/.."
+worst=0
 for id in C01 C02 C03 C04 C05 C06 C07 C08 C09 C10 C11 C12 C13 C14 C15 C16 C17 C18 C19 C20; do
   s=$(date +%s)
   VERIF_SEED=$SEED ./check $id --tier $TIER --no-evidence > /tmp/sweep.$SEED.$id.out 2>&1
   rc=$?
   e=$(date +%s)
   echo "SWEEP seed=$SEED $id exit=$rc wall=$((e-s))s $(grep -c '^VIOLATION' /tmp/sweep.$SEED.$id.out) violations; $(grep -E '^HARNESS' /tmp/sweep.$SEED.$id.out | head -1 | cut -c1-200)"
-  [ $rc -ne 0 ] && grep -E -A2 '^VIOLATION' /tmp/sweep.$SEED.$id.out | cut -c1-400 | head -12
+  if [ $rc -ne 0 ]; then worst=$rc; grep -E -A2 '^VIOLATION' /tmp/sweep.$SEED.$id.out | cut -c1-400 | head -12; fi
 done
+exit $worst
